@@ -1,7 +1,7 @@
 #!/bin/bash
 # runs every claimed check's quick (or $1=thorough) command, validates manifest and evidence
 tier=${1:-quick}
-cd /verif
+cd "$(dirname "$0")/.."
 fail=0
 for id in $(python3 -c "import json;print(' '.join(c['property_id'] for c in json.load(open('MANIFEST.json'))['checks']))"); do
   start=$(date +%s)
